@@ -10,6 +10,15 @@ ENG = {
 
 # id -> (engine, technique, level text, level note)
 P = {
+ "C07": ("E3", "bounded-exhaustive enumeration of interval lattice x panel counts / level budgets x monomial basis, plus a catalogue of analytic integrands and all small sample arrays; exact (double-double) reference integrals",
+         "On a 10x10 lattice of end-points in +-1000 (a>b and a=b included): trapz with every panel count 1..=64,100,1000,4096 on all affine integrands over {-2..2}^2; romberg at eps=0 with every level budget k=1..=12 (20 thorough) on every monomial of degree < 2k; the Gauss-Legendre rule on monomials 0..=19; linearity Q(2f-3g)=2Q(f)-3Q(g) and Q(a,b)=-Q(b,a) for all three rules - exactness on the monomial basis plus linearity decides exactness on the polynomial class. The trapezoid error bound (b-a)h^2/12 max|f''| is checked for every panel count and Romberg's error against 10 eps on 20 analytic integrands with closed-form antiderivatives (including sin^2(2 pi x), whose first three trapezoid levels coincide). The sampled rule is compared exactly on all increasing abscissa sets from a 6-point lattice x all ordinate words over {-2..2}, and on arrays of every length 2..=300.",
+         "Exactness tolerance 64 N u (b-a) max|f| (N integrand evaluations). The smooth-integrand clauses are decided on the 20 catalogued integrands only."),
+ "C09": ("E3", "exhaustive enumeration of the f32 argument lattice (complete in thorough, every 16th in quick) against glibc tgamma/erf; identities on adjacent lattice points",
+         "gamma is evaluated at every f32-representable argument in (-170,171.6) outside 2^-10 of a pole (2.9e8 arguments thorough; every 16th with a VERIF_SEED-chosen offset quick), at all integers and half-integers and +-8 f64-ulps around them and on the k/64 lattice, against glibc tgamma with relative tolerance 1e-13 max(1, 0.5/dist-to-pole); Gamma(n+1)=n! for all n<=170 in double-double; Gamma(x+1)=x Gamma(x) on the lattice; beta on a 51x51 (411x411 thorough) lattice in (1e-3,80] against tgamma products to 1e-12 with symmetry; digamma on all integers <= 10^4 against exact harmonic numbers, on a geometric lattice to 1e6 and an f32 sweep of [1e-3,64] against a 7-term asymptotic reference with the recurrence identity; erf on every f32 in [-6,6] (8.6e8 arguments thorough) and a lattice to +-40: accuracy 1.5e-7, |erf|<=1, oddness.",
+         "glibc tgamma/erf are the truth (few ulp). 'Scaled by proximity to a pole' is read as 1e-13 max(1, 0.5/dist). Random f64 arguments are replaced by the complete f32 lattice."),
+ "C17": ("E3", "exhaustive enumeration of the f32 lattice in increasing order (monotonicity on consecutive points), all softmax vectors over an extreme-value alphabet, a Box-Cox parameter lattice, all (n,k) against a u128 Pascal triangle",
+         "logistic is evaluated on the f32 lattice of +-745 in increasing order (every point thorough: 2.3e9; every 16th quick): values in [0,1], logistic(-x)=1-logistic(x) to 4u, and non-decrease between consecutive lattice points; logistic(logit(p))=p to 4u on the f32 lattice of [0,1] and 1-p; logit must reject 10 out-of-domain arguments incl. NaN. softmax: all 37448 vectors of length 1..=5 over {-1e4,-745,-1,0,1,709,710,1e4}, structured vectors up to length 1000, four shifts each: finite, non-negative, sum 1 to n u, order-preserving, shift-invariant, equal to exp(x-max)/sum. Box-Cox: 49 x values in [1e-6,1e6] x 17 lambdas (0, +-1e-12, +-1e-9, ... +-5) x 6 shifts x 3 placements, domain acceptance/rejection exactly at x+shift>0, values against expm1(lambda ln x)/lambda. binom_coeff: all 0<=k<=n<=67 and all n<=4000 with k or n-k <=32 and C(n,k)<2^64 against an exact u128 Pascal triangle; binom_coeff_alt for n<=45.",
+         "Box-Cox tolerance 1e-9 max(1,|value|) (an 8-digit loss is a violation, ulp-level differences are not). Softmax order preservation is non-strict."),
  "C04": ("E3", "bounded-exhaustive enumeration of all lengths 0..40 x operators x operand forms x special-value injections; bitwise scalar reference model",
          "Every length 0..=40 (so every remainder of the 8-way unrolled kernels), every operator form of Vector and Matrix (owned/borrowed, scalar left/right, compound assignment, negation), all 29 unary maps, powi(-2..=5) and powf are executed on the real code with position-coded values and with every single-position injection of {+-0, +-inf, NaN, min subnormal, MAX}; each output element is compared bit for bit with the scalar f64 operation; all mismatched length pairs up to 17 and unequal Matrix shapes must panic; reductions are compared with double-double sums under the gamma_n bound, including large-magnitude log-domain inputs. A poisoning allocator turns an unwritten output element into a deterministic violation.",
          "Lengths above 40 only at 63..65,127,128,1000,10000 (thorough). NaN payloads are not compared. 0x0 Matrix arithmetic and empty logsumexp are recorded, not judged. Same-build libm is the scalar reference."),
